@@ -71,6 +71,14 @@ let handle toks = match toks with
       (if wt true e && refs_ok ds e then "1" else "0")
   | "FIND" :: rest ->
       let (st, _) = Exprio.parse_state rest in show_solve (find_answer bf_oracle st)
+  | "FIND3" :: k :: rest ->
+      (* z3 with a three-valued answer: R = the brute-force oracle's answer, U = gives up on every query *)
+      let (st, _) = Exprio.parse_state rest in
+      let o3 = (match k with "U" -> gives_up | _ -> lift_oracle bf_oracle) in
+      show_solve (find_answer3 o3 st)
+  | "FALSEON" :: _ ->
+      let b x = if solve_returns_false_on x then "1" else "0" in
+      "sat=" ^ b CSat ^ " unsat=" ^ b CUnsat ^ " unknown=" ^ b CUnknown
   | "MODELS" :: rest ->
       let (st, _) = Exprio.parse_state rest in
       let ms = spec_models st in
